@@ -520,6 +520,33 @@ example (β : Ks.R 1) :
           * constVal 1 β [2] :=
   mul_const_phase_value 1 (by decide) [[1]] [[3], [0]] [[[1], [0]]] [2] 0 2 β rfl (by decide) (by decide) (by decide) (by decide) (by decide) (by decide)
 
+/-- **`mul_plain_phase_value`** — `glwe_mul_plain` decrypts to the product at the documented scale, accumulator level: for the masked operands
+`a'` (`cnv_prepare_left`) and `pt'` (`cnv_prepare_right`), the phase of the `sa + sb − hi` limbs of `cnv_apply_dft(hi, a'_i, pt')`, plus
+`β^{sa+sb−hi}` times the skipped top limbs, has the value `β · val(phase a') · val(pt')`: on the torus `phase(a')·pt'·β^{hi+1}`, and `·2^{lo}` by the
+normalisation (`mul_plain_result_phase_modulo_norm`), i.e. `phase(a')·pt'·2^{cnv_offset}` (`cnvOffsetSplit_total`).  The same column identity
+(`Core.cnvApply_column_value`) holds for every diagonal and pairwise product of the tensor forms. -/
+theorem mul_plain_phase_value (N : Nat) (hN : 0 < N) (sk : List Poly) (a0 : Col) (as : List Col) (pt : Col) (hi sa : Nat) (β : Ks.R N)
+    (h0 : a0.length = sa) (hall : ∀ x ∈ as, x.length = sa) (hx0 : ∀ l ∈ a0, l.length = N) (hxs : ∀ x ∈ as, ∀ l ∈ x, l.length = N)
+    (hpt : ∀ l ∈ pt, l.length = N) (hsa : 1 ≤ sa) (hsb : 1 ≤ pt.length) (hhi : hi ≤ sa + pt.length - 1) :
+    ∑ k ∈ Finset.range (sa + pt.length - hi),
+        Ks.ι N (Ks.phaseRow sk (((a0 :: as).map (fun x => Hal.cnvApplyCol N (sa + pt.length - hi) hi x pt)).map (fun col => limbOr0 N col k)))
+          * β ^ (sa + pt.length - hi - 1 - k)
+      + β ^ (sa + pt.length - hi) * (plainTop N β a0 pt hi
+          + ∑ i ∈ Finset.range (min sk.length as.length), Ks.ι N (sk.getD i []) * plainTop N β (as.getD i []) pt hi)
+      = β * (colVal N β a0 + ∑ i ∈ Finset.range (min sk.length as.length), Ks.ι N (sk.getD i []) * colVal N β (as.getD i [])) * colVal N β pt :=
+  mulPlain_phase_value N hN sk a0 as pt hi sa β h0 hall hx0 hxs hpt hsa hsb hhi
+
+example (β : Ks.R 1) :
+    ∑ k ∈ Finset.range (2 + 1 - 0),
+        Ks.ι 1 (Ks.phaseRow [[1]] (((([[3], [0]] : Col) :: [[[1], [0]]]).map (fun x => Hal.cnvApplyCol 1 (2 + 1 - 0) 0 x [[2]])).map
+          (fun col => limbOr0 1 col k))) * β ^ (2 + 1 - 0 - 1 - k)
+      + β ^ (2 + 1 - 0) * (plainTop 1 β [[3], [0]] [[2]] 0
+          + ∑ i ∈ Finset.range (min 1 1), Ks.ι 1 (([[1]] : List Poly).getD i []) * plainTop 1 β (([[[1], [0]]] : List Col).getD i []) [[2]] 0)
+      = β * (colVal 1 β [[3], [0]] + ∑ i ∈ Finset.range (min 1 1), Ks.ι 1 (([[1]] : List Poly).getD i []) * colVal 1 β (([[[1], [0]]] : List Col).getD i []))
+          * colVal 1 β [[2]] :=
+  mul_plain_phase_value 1 (by decide) [[1]] [[3], [0]] [[[1], [0]]] [[2]] 0 2 β rfl (by decide) (by decide) (by decide) (by decide) (by decide)
+    (by decide) (by decide)
+
 /-
 NOT PROVED (checked by correspondence on every generated case, see docs/C05.md):
 * `tensorSquare_eq_tensorApply` and `tensorApply_acc_eq_add` for ranks ≥ 3 (the property's quantifier is rank 1..2;
